@@ -419,6 +419,8 @@ func rulesC17(c *Ctx) {
 	c10Apply(c)
 	c09Loop(c)
 	c16BaseListeners(c)
+	// … and the breaker's delay function: the execution it is given carries the outcome that trips the breaker
+	c04Pairing(c)
 }
 
 // c17Counters: who touches the four shared counters, and how.
